@@ -144,6 +144,40 @@ structure Insert where
   key : String
 deriving Repr
 
+/-- an operation that can panic on caller-controlled data (map index / delete with an interface-typed key, type assertion
+    without comma-ok, index by a parameter, call through a function value, call of a function containing one of these),
+    executed inside a critical section of `mu` that was opened in the same function; `deferred`: the unlock of that
+    section had been registered with `defer` when the operation runs (so a panic releases the mutex) -/
+structure RiskyOp where
+  id : Nat
+  mu : Lock
+  deferred : Bool
+  phase : Phase
+  fn : String
+  pos : String
+  op : String
+deriving Repr
+
+/-- a map/slice-typed struct field is set to a parameter of an exported function without copying -/
+structure CallerStore where
+  id : Nat
+  field : Nat
+  phase : Phase
+  fn : String
+  pos : String
+  what : String
+deriving Repr
+
+/-- an in-place write (element assignment, delete, append into the backing array, copy) through a map/slice-typed field -/
+structure FieldWrite where
+  id : Nat
+  field : Nat
+  phase : Phase
+  fn : String
+  pos : String
+  what : String
+deriving Repr
+
 /-- something the extractor refused to interpret -/
 structure Unknown where
   id : Nat
@@ -204,6 +238,23 @@ def resolve (names : List (Nat × String)) (ks : List (String × String)) : List
 def insertOkB (t : List Access) (ex : List (Cls × String)) (r : Insert) : Bool :=
   r.phase != .live || (ex.any fun e => e.1 == r.cls && e.2 == r.fn) ||
     r.guards.any fun m => t.all fun b => b.cls != r.cls || !(b.write && b.live) || heldIn b m true
+
+def riskyOkB (r : RiskyOp) : Bool := r.phase != .live || r.deferred
+
+/-- no field that can hold the caller's own map/slice is ever written through -/
+def callerDataOkB (stores : List CallerStore) (writes : List FieldWrite) : Bool :=
+  stores.all fun s => s.phase != .live || writes.all fun w => w.field != s.field || w.phase != .live
+
+/-- the pairs (store of caller data, write through the same field) — for reports -/
+def callerDataBad (stores : List CallerStore) (writes : List FieldWrite) : List (CallerStore × FieldWrite) :=
+  stores.foldr (fun s acc => ((writes.filter fun w => s.phase == .live && w.phase == .live && w.field == s.field).map fun w => (s, w)) ++ acc) []
+
+/-! ### a critical section whose body may panic: deferred vs explicit unlock -/
+
+/-- lock state (`true` = still locked) after a section `Lock; body; Unlock` in a function whose panics are recovered
+    further up (as `SlotChain.Entry` / `SentinelEntry.Exit` do): with `defer Unlock` the unlock runs during unwinding,
+    with an explicit `Unlock` after the body it is skipped when the body panics -/
+def lockedAfterSection (deferredUnlock bodyPanics : Bool) : Bool := !deferredUnlock && bodyPanics
 
 def rankOf (ranks : List (Lock × Nat)) (m : Lock) : Nat :=
   match ranks.find? (fun p => p.1 == m) with
